@@ -338,7 +338,8 @@ class DbKey(Base):
     )
 
     def __repr__(self):
-        return "<DbKey(id='%s', name='%s', wif='%s'>" % (self.id, self.name, self.wif)
+        wif = self.wif if not self.is_private else '<private>'
+        return "<DbKey(id='%s', name='%s', wif='%s'>" % (self.id, self.name, wif)
 
 
 class DbNetwork(Base):
